@@ -10,6 +10,10 @@ use crate::{Header, header};
 pub struct Reader<R> {
     inner: R,
     is_eol: bool,
+    // The number of bytes of the last buffer returned by `fill_buf` that are not yet consumed,
+    // and whether that buffer ends with a line feed.
+    len: usize,
+    is_line: bool,
 }
 
 impl<R> Reader<R> {
@@ -17,6 +21,8 @@ impl<R> Reader<R> {
         Self {
             inner,
             is_eol: true,
+            len: 0,
+            is_line: false,
         }
     }
 }
@@ -28,11 +34,6 @@ where
     fn read(&mut self, buf: &mut [u8]) -> io::Result<usize> {
         let mut src = self.fill_buf()?;
         let amt = src.read(buf)?;
-
-        if !src.is_empty() {
-            self.is_eol = false;
-        }
-
         self.consume(amt);
 
         Ok(amt)
@@ -51,20 +52,28 @@ where
 
         let src = self.inner.fill_buf()?;
 
-        let buf = if self.is_eol && src.first().map(|&b| b != PREFIX).unwrap_or(true) {
-            &[]
-        } else if let Some(i) = memchr(LINE_FEED, src) {
-            self.is_eol = true;
-            &src[..=i]
-        } else {
-            self.is_eol = false;
-            src
-        };
+        let (buf, is_line): (&[u8], bool) =
+            if self.is_eol && src.first().map(|&b| b != PREFIX).unwrap_or(true) {
+                (&[], false)
+            } else if let Some(i) = memchr(LINE_FEED, src) {
+                (&src[..=i], true)
+            } else {
+                (src, false)
+            };
+
+        self.len = buf.len();
+        self.is_line = is_line;
 
         Ok(buf)
     }
 
     fn consume(&mut self, amt: usize) {
+        if amt > 0 {
+            // The next byte starts a line only if the whole line was consumed.
+            self.len = self.len.saturating_sub(amt);
+            self.is_eol = self.len == 0 && self.is_line;
+        }
+
         self.inner.consume(amt);
     }
 }
